@@ -90,6 +90,59 @@ func c27(x *Ctx) {
 		return
 	}
 	fresh := extractOf(newCall, 0)
+	// The compare-and-replace critical section may live in Reload itself or in a helper method Reload calls with the
+	// fresh configuration (`core`): the rules about the comparison, the stores and the lock are decided inside core;
+	// the rules that relate them to validation and to the listeners use the helper's call site in Reload.
+	isHashCmp0 := func(v ssa.Value) bool {
+		b, ok := v.(*ssa.BinOp)
+		if !ok || (b.Op != token.EQL && b.Op != token.NEQ) {
+			return false
+		}
+		return loadsField(b.X, hashes) && loadsField(b.Y, hashes)
+	}
+	hasCmp := func(f *ssa.Function) bool {
+		found := false
+		eng.Instrs(f, func(in ssa.Instruction) {
+			if v, ok := in.(ssa.Value); ok && isHashCmp0(v) {
+				found = true
+			}
+		})
+		return found
+	}
+	core := rl
+	var coreCall *ssa.Call
+	bind := map[*ssa.Parameter]ssa.Value{}
+	if !hasCmp(rl) {
+		eng.Instrs(rl, func(in ssa.Instruction) {
+			cl, ok := in.(*ssa.Call)
+			if !ok || coreCall != nil {
+				return
+			}
+			g := cl.Call.StaticCallee()
+			if g == nil || g.Blocks == nil || x.P.FuncRel(g) != "config" || !hasCmp(g) {
+				return
+			}
+			core, coreCall = g, cl
+			for i, p := range g.Params {
+				if i < len(cl.Call.Args) {
+					bind[p] = cl.Call.Args[i]
+				}
+			}
+		})
+	}
+	site := func(in ssa.Instruction) ssa.Instruction {
+		if coreCall != nil {
+			return coreCall
+		}
+		return in
+	}
+	if coreCall != nil {
+		recv = core.Params[0]
+		if bind[recv] != ssa.Value(rl.Params[0]) {
+			c.Undecided("C27.validated-before-apply", "Reload/helper-receiver", x.Pos(coreCall), "the compare-and-replace helper is not called on Reload's own receiver")
+			return
+		}
+	}
 	fromFresh := func(v ssa.Value) bool {
 		_, ok := eng.Derives(v, func(w ssa.Value) bool {
 			for _, e := range fresh {
@@ -98,13 +151,20 @@ func c27(x *Ctx) {
 				}
 			}
 			return false
-		}, eng.FlowOpts{})
+		}, eng.FlowOpts{Callers: func(p *ssa.Parameter) []ssa.Value {
+			if a, ok := bind[p]; ok {
+				return []ssa.Value{a}
+			}
+			return nil
+		}})
 		return ok
 	}
+	// the helper's "changed" result: the bool result that is constant false on every return under equal hashes
+	changedIdx := -1
 	// ---- clause 2 --------------------------------------------------------------------------------------
 	const r2 = "C27.validated-before-apply"
 	var stores []*ssa.Store
-	for _, w := range eng.FieldWrites([]*ssa.Function{rl}, state) {
+	for _, w := range eng.FieldWrites([]*ssa.Function{core}, state) {
 		st := w.Instr.(*ssa.Store)
 		if _, base, _ := eng.FieldRefOf(st.Addr); !onRecv(base) {
 			continue
@@ -112,7 +172,7 @@ func c27(x *Ctx) {
 		stores = append(stores, st)
 		c.Examined++
 		fr, _, _ := eng.FieldRefOf(st.Addr)
-		okVal := fromFresh(st.Val) && eng.Dominates(newCall.(ssa.Instruction), st)
+		okVal := fromFresh(st.Val) && eng.Dominates(newCall.(ssa.Instruction), site(st))
 		// not reachable when newFileConfig rejected the files
 		asRej := &eng.Assume{Nil: func(v ssa.Value) eng.Tri {
 			for _, e := range fresh {
@@ -125,7 +185,7 @@ func c27(x *Ctx) {
 			}
 			return eng.Unknown
 		}}
-		rr := eng.ReachableSinks(rl, asRej, newCall.(ssa.Instruction), func(in ssa.Instruction) bool { return in == ssa.Instruction(st) })
+		rr := eng.ReachableSinks(rl, asRej, newCall.(ssa.Instruction), func(in ssa.Instruction) bool { return in == site(st) })
 		c.Decide(okVal && len(rr.Hits) == 0, r2, "Reload/"+fr.Name, x.Pos(st), "overwritten only with the freshly validated value", "the running "+fr.Name+" can be overwritten with a value that did not come out of a successful newFileConfig (a rejected configuration is applied)")
 	}
 	c.Min(r2, 4)
@@ -152,28 +212,79 @@ func c27(x *Ctx) {
 		if !ok || cl.Call.IsInvoke() || cl.Call.StaticCallee() != nil {
 			return false
 		}
-		_, fromList := eng.Derives(cl.Call.Value, func(v ssa.Value) bool { return loadsField(v, fld("callbacks")) }, eng.FlowOpts{})
+		isList := func(w ssa.Value) bool {
+			if loadsField(w, fld("callbacks")) {
+				return true
+			}
+			// the list handed back by the compare-and-replace helper
+			if e, ok := w.(*ssa.Extract); ok && coreCall != nil && e.Tuple == ssa.Value(coreCall) {
+				for _, rv := range returnedValues(core, e.Index) {
+					if _, d := eng.Derives(rv, func(u ssa.Value) bool { return loadsField(u, fld("callbacks")) }, eng.FlowOpts{}); d {
+						return true
+					}
+				}
+			}
+			return false
+		}
+		_, fromList := eng.Derives(cl.Call.Value, isList, eng.FlowOpts{})
 		if fromList {
 			return true
 		}
 		// a copy of the list taken earlier
 		return rangeElemOf(cl.Call.Value, func(v ssa.Value) bool {
-			_, d := eng.Derives(v, func(w ssa.Value) bool { return loadsField(w, fld("callbacks")) }, eng.FlowOpts{})
+			_, d := eng.Derives(v, isList, eng.FlowOpts{})
 			return d
 		})
 	}
-	r := eng.ReachableSinks(rl, same, nil, func(in ssa.Instruction) bool {
-		if isCallback(in) {
-			return true
-		}
+	isStore := func(in ssa.Instruction) bool {
 		for _, st := range stores {
 			if in == ssa.Instruction(st) {
 				return true
 			}
 		}
 		return false
-	})
-	c.Decide(len(r.Hits) == 0, r3, "Reload/unchanged", x.PosOf(rl.Pos()), "equal hashes ⇒ no store, no notification", "with unchanged hashes Reload still overwrites the configuration or notifies listeners")
+	}
+	// what the helper tells Reload: its bool result that is false whenever the hashes are equal and true otherwise
+	changedAssume := func(t eng.Tri) *eng.Assume { return same }
+	if coreCall != nil {
+		res := core.Signature.Results()
+		for i := 0; i < res.Len(); i++ {
+			if res.At(i).Type().String() != "bool" {
+				continue
+			}
+			rs := eng.Explore(eng.Query{Fn: core, Assume: same, TrackPhi: func(*ssa.Phi) bool { return true }})
+			allFalse, n := true, 0
+			for _, e := range rs.Exits {
+				if ret, ok := e.Instr.(*ssa.Return); ok && i < len(ret.Results) {
+					n++
+					if e.Facts.Bool(e.Facts.Resolve(ret.Results[i])) != eng.False {
+						allFalse = false
+					}
+				}
+			}
+			if allFalse && n > 0 {
+				changedIdx = i
+			}
+		}
+		if changedIdx < 0 {
+			c.Undecided(r3, "Reload/helper-result", x.Pos(coreCall), "the compare-and-replace helper does not report 'unchanged' to Reload through a bool result")
+			return
+		}
+		flags := extractOf(coreCall, changedIdx)
+		changedAssume = func(t eng.Tri) *eng.Assume {
+			return &eng.Assume{Bool: func(v ssa.Value) eng.Tri {
+				for _, f := range flags {
+					if v == f {
+						return t
+					}
+				}
+				return eng.Unknown
+			}}
+		}
+	}
+	r := eng.ReachableSinks(core, same, nil, isStore)
+	rcb := eng.ReachableSinks(rl, changedAssume(eng.False), nil, isCallback)
+	c.Decide(len(r.Hits) == 0 && len(rcb.Hits) == 0, r3, "Reload/unchanged", x.PosOf(rl.Pos()), "equal hashes ⇒ no store, no notification", "with unchanged hashes Reload still overwrites the configuration or notifies listeners")
 	// a difference in either hash alone makes the change applied
 	for _, hf := range []string{"mainHash", "rulesHash"} {
 		one := fld(hf)
@@ -202,11 +313,13 @@ func c27(x *Ctx) {
 				return eng.Unknown
 			},
 		}
-		rr := eng.Explore(eng.Query{Fn: rl, Assume: as, Start: newCall.(ssa.Instruction), Classify: func(in ssa.Instruction, _ eng.Facts) eng.Event {
-			for _, st := range stores {
-				if in == ssa.Instruction(st) {
-					return eng.EvSink
-				}
+		var from ssa.Instruction
+		if coreCall == nil {
+			from = newCall.(ssa.Instruction)
+		}
+		rr := eng.Explore(eng.Query{Fn: core, Assume: as, Start: from, Classify: func(in ssa.Instruction, _ eng.Facts) eng.Event {
+			if isStore(in) {
+				return eng.EvSink
 			}
 			return eng.EvNone
 		}})
@@ -231,7 +344,7 @@ func c27(x *Ctx) {
 	} else {
 		okAfter := len(stores) > 0
 		for _, st := range stores {
-			if !eng.Dominates(st, cbCalls[0]) {
+			if !eng.Dominates(site(st), cbCalls[0]) {
 				okAfter = false
 			}
 		}
@@ -240,7 +353,11 @@ func c27(x *Ctx) {
 		c.Decide(okAfter && inRange, r4, "Reload/callbacks", x.Pos(cbCalls[0]), "every listener is called once, after the new configuration is in place", "listeners are notified before the new configuration is stored (they read the old values), or not in a loop over all listeners")
 		// once the new configuration is stored every path reaches the notification loop (no return in between)
 		if h := loopHeader(cbCalls[0]); h != nil && len(stores) > 0 {
-			r := eng.Explore(eng.Query{Fn: rl, Start: stores[len(stores)-1], Classify: func(in ssa.Instruction, _ eng.Facts) eng.Event {
+			var asChanged *eng.Assume
+			if coreCall != nil {
+				asChanged = changedAssume(eng.True)
+			}
+			r := eng.Explore(eng.Query{Fn: rl, Assume: asChanged, Start: site(stores[len(stores)-1]), Classify: func(in ssa.Instruction, _ eng.Facts) eng.Event {
 				if in == h.Instrs[0] {
 					return eng.EvKill
 				}
@@ -368,9 +485,13 @@ func c27(x *Ctx) {
 	}
 	// ---- clause 3: atomic check-then-apply ---------------------------------------------------------------
 	const r5 = "C27.atomic-check-then-apply"
+	rlAndCore := []*ssa.Function{rl}
+	if core != rl {
+		rlAndCore = append(rlAndCore, core)
+	}
 	mux := fld("mux")
 	var cmps []ssa.Instruction
-	eng.Instrs(rl, func(in ssa.Instruction) {
+	eng.Instrs(core, func(in ssa.Instruction) {
 		if v, ok := in.(ssa.Value); ok && isHashCmp(v) {
 			cmps = append(cmps, in)
 		}
@@ -384,7 +505,7 @@ func c27(x *Ctx) {
 		// no unlock between the comparison and the stores
 		interrupted := false
 		if locked {
-			rr := eng.Explore(eng.Query{Fn: rl, Start: cmp, Classify: func(in ssa.Instruction, _ eng.Facts) eng.Event {
+			rr := eng.Explore(eng.Query{Fn: core, Start: cmp, Classify: func(in ssa.Instruction, _ eng.Facts) eng.Event {
 				for _, st := range stores {
 					if in == ssa.Instruction(st) {
 						return eng.EvSink
@@ -399,7 +520,7 @@ func c27(x *Ctx) {
 			}
 			// an Unlock strictly between comparison and a store
 			for _, st := range stores {
-				eng.Instrs(rl, func(in ssa.Instruction) {
+				eng.Instrs(core, func(in ssa.Instruction) {
 					if cl, ok := eng.IsCall(in, "(*sync.RWMutex).Unlock", "(*sync.Mutex).Unlock"); ok {
 						if _, isDefer := in.(*ssa.Defer); isDefer {
 							return
@@ -415,7 +536,7 @@ func c27(x *Ctx) {
 			"the current hashes are compared outside the configuration lock (or the lock is released before the stores): two concurrent Reload calls (timer goroutine and a pubsub message) can both see 'changed', apply the same change twice and notify every listener twice")
 	}
 	// callbacks list read under the lock
-	for _, a := range eng.FieldAccesses([]*ssa.Function{rl}, fld("callbacks")) {
+	for _, a := range eng.FieldAccesses(rlAndCore, fld("callbacks")) {
 		c.Decide(lockedAt(a.Instr, mux), r5, "Reload/callbacks-read", x.Pos(a.Instr), "listener list read under the lock", "the listener list is read without the lock while RegisterReloadCallback may append to it")
 	}
 	c.Min(r5, 2)
